@@ -342,3 +342,23 @@ PROPS["C13"] = {
     "assumptions": ["TRUST_HIR_SALSA_EVENT_METRICS=1 only enables counters; it does not change query results"],
     "design_ref": "DESIGN.md section 3, C13",
 }
+
+PROPS["C14"] = {
+    "engine": "c14",
+    "builds": ["lsp"],
+    "level": "exploration",
+    "technique": "two real trust-lsp processes over stdio (one fed the change notifications, one fed the final text) + a UTF-16 editor buffer model: answer equality, position validity on the editor's text, prepareRename round trips",
+    "quick": {"shards": 8, "budget_s": 30, "watchdog_s": 900},
+    "thorough": {"shards": 16, "budget_s": 420, "watchdog_s": 3600},
+    "floor": {"quick": 150, "thorough": 5000},
+    "require_counters": {"quick": {"answers_compared": 1500, "positions_validated_on_editor_text": 8000, "prepare_rename_round_trips": 1500, "histories_editing_after_non_ascii": 100}, "thorough": {"answers_compared": 50000}},
+    "rule": "initial texts: 5 base programs (incl. a CRLF one) salted with Latin-1, CJK, BMP symbols and astral emoji in comments, pragmas and strings placed *before* code on the same line; 1-30 "
+            "didChange notifications of 1-3 incremental changes each (insert/delete/replace on valid UTF-16 boundaries, biased to positions right after a wide character, CRLF inserts, occasional "
+            "full-text change). distinct = the history; non-trivial = >= 1 incremental change on a line whose prefix is non-ASCII, or >= 3 changes",
+    "level_text": "O1: formatting, semanticTokens/full, documentSymbol, pull diagnostics, foldingRange and hovers of the server that received the changes must equal those of a second server that got the "
+                  "editor's final text in one didOpen. O2: every range in those answers must lie on character boundaries of the editor's text measured in UTF-16 units, semantic tokens must not be empty or "
+                  "split a surrogate pair, documentSymbol selection ranges must cover the symbol's name. O3: prepareRename at every identifier start returns exactly that identifier's range.",
+    "level_note": "Only valid ranges are sent (what a conforming editor sends). The server binary is the workspace's trust-lsp built from the working tree into /verif/target/repo.",
+    "assumptions": ["the UTF-16 editor model in harness/src/lsp.rs (lines split on LF, CR belongs to the terminator) is the trusted base"],
+    "design_ref": "DESIGN.md section 3, C14",
+}
